@@ -183,6 +183,7 @@ EDGES = {}  # (waiter, awaited) -> count
 EDGE_LOCK = threading.Lock()
 STOPS = []
 STARTS = []
+STOP_EVENTS = []  # ["begin"|"end", class code, instance index]: a stop starts / its on_stop has finished
 DIED = []
 CLASS_CODE = {}  # class -> numeric code (shutdown mode)
 
@@ -245,8 +246,14 @@ def install_pykka_instrumentation():
     orig_stop = _actor.Actor._stop
 
     def _stop(self):
-        STOPS.append(CLASS_CODE.get(type(self), type(self).__name__))
-        return orig_stop(self)
+        code = CLASS_CODE.get(type(self), type(self).__name__)
+        inst = getattr(self, "_verif_idx", 0)
+        STOPS.append(code)
+        STOP_EVENTS.append(["begin", code, inst])
+        try:
+            return orig_stop(self)  # unregisters, then runs on_stop
+        finally:
+            STOP_EVENTS.append(["end", code, inst])
 
     _actor.Actor._stop = _stop
 
@@ -484,6 +491,34 @@ SLOW_RELEASE = threading.Event()
 SESSION_BUDGET = [0]
 
 
+def add_siblings(cls, n, slow_s, slow_index=0):
+    """Several running instances matched by one registered class: instance 0 (the one the run
+    command starts) starts n more instances of its own class from on_start; the on_stop of
+    instance slow_index takes slow_s seconds."""
+    state = {"count": 0}
+    orig_init, orig_on_start = cls.__init__, cls.on_start
+
+    def __init__(self, *a, **kw):
+        orig_init(self, *a, **kw)
+        self._verif_idx = state["count"]
+        state["count"] += 1
+        self._verif_args = (a, kw)
+
+    def on_start(self):
+        orig_on_start(self)
+        if self._verif_idx == 0:
+            a, kw = self._verif_args
+            for _ in range(n):
+                type(self).start(*a, **kw)
+
+    def on_stop(self):
+        if self._verif_idx == slow_index:
+            time.sleep(slow_s)
+
+    cls.__init__, cls.on_start, cls.on_stop = __init__, on_start, on_stop
+    return cls
+
+
 class SessionActor(pykka.ThreadingActor):
     """A per-connection helper actor of a network frontend: not one of the registered frontend
     classes (only process.stop_remaining_actors stops it); when it is torn down the client
@@ -569,6 +604,7 @@ def run_shutdown_case(case, wd, data_dir=None, providers=False, work=None):
     SESSION_BUDGET[0] = int(case.get("respawns", 0))
     del STOPS[:]
     del STARTS[:]
+    del STOP_EVENTS[:]
     del DIED[:]
     CLASS_CODE.clear()
     EDGES.clear()
@@ -598,6 +634,11 @@ def run_shutdown_case(case, wd, data_dir=None, providers=False, work=None):
         frontends = [make_frontend_class(i, o, sessions=int(case.get("sessions", 0)) if i == 0 else 0)
                      for i, o in enumerate(case["ofs"])]
         CLASS_CODE[SessionActor] = 900
+        sib = case.get("siblings")
+        sib_cls = None
+        if sib:
+            sib_cls = add_siblings((frontends if sib["kind"] == "frontend" else backends)[0], sib["n"], sib["slow"],
+                                   sib.get("slow_index", 0))
         CLASS_CODE[mixer_cls] = 1
         CLASS_CODE[Audio] = 2
         CLASS_CODE[Core] = 3
@@ -615,6 +656,11 @@ def run_shutdown_case(case, wd, data_dir=None, providers=False, work=None):
             def run(self):
                 loop_log.append("run")
                 core_refs = pykka.ActorRegistry.get_by_class(Core)
+                if sib_cls is not None:  # let every instance come up before termination is requested
+                    t_end = time.monotonic() + 3
+                    while len(pykka.ActorRegistry.get_by_class(sib_cls)) < 1 + sib["n"] and time.monotonic() < t_end:
+                        time.sleep(0.002)
+                    loop_log.append(f"instances={len(pykka.ActorRegistry.get_by_class(sib_cls))}")
                 if core_refs and work is not None:
                     work(core_refs[0].proxy())
                 elif core_refs and case.get("work", True):
@@ -752,6 +798,7 @@ def run_shutdown_case(case, wd, data_dir=None, providers=False, work=None):
             except BaseException as e:  # noqa: BLE001
                 escaped = type(e).__name__
             wd.disarm()
+        stop_events_at_return = [list(e) for e in STOP_EVENTS]
         left = len(pykka.ActorRegistry.get_all())
         # actor threads must end: wait briefly for them
         t_end = time.monotonic() + (5 if left == 0 else 0)
@@ -776,6 +823,8 @@ def run_shutdown_case(case, wd, data_dir=None, providers=False, work=None):
             "state_digest": session_digest(state_file) if os.path.exists(state_file) else None,
             "left": left,
             "respawns_unused": SESSION_BUDGET[0],
+            "stop_events_at_return": stop_events_at_return,
+            "stop_events": [list(e) for e in STOP_EVENTS],
             "restore_raised": restore["raised"],
             "threads_left": live,
             "loop": [x if isinstance(x, str) else list(x) for x in loop_log],
